@@ -700,7 +700,7 @@ let run_cli = function
       | DNothing e -> "nothing " ^ sz e
       | DRun (w, k, o, m, l, c) -> Printf.sprintf "run %s %s %s %s %s %s" (sz w) (kind_s k) (sz o) (ocaml_string m) (sz l) (hex_of_str (ocaml_string c))
       | DPanic -> "panic" in
-    d ^ " diag=" ^ string_of_int (List.length st.c_diag)
+    d ^ " safe=" ^ (if st.c_safe then "1" else "0") ^ " diag=" ^ string_of_int (List.length st.c_diag)
   | _ -> "ERR bad cli line"
 
 
@@ -724,7 +724,11 @@ let run_formsnf = function
     let bad = ref [] in
     List.iteri (fun idx i ->
         let u = unzero_instr i in
-        if reorder w u <> u then bad := ("notnormal@" ^ string_of_int idx ^ ":" ^ instr_text i) :: !bad
+        if reorder w u <> u then
+          (* not the operand order of the model's reordering: the coverage predicates are evaluated on the
+             instruction itself (the theorems C13_*_covers_all speak about normal forms only) *)
+          bad := ((if int_covers i && (u <> i || jit_covers i || (match i with Scan _ -> true | _ -> false)) then "notnormal-covered@" else "notnormal-uncovered@")
+                  ^ string_of_int idx ^ ":" ^ instr_text i) :: !bad
         else if not (int_covers i) then bad := ("int-uncovered@" ^ string_of_int idx) :: !bad
         else if u = i && not (jit_covers i) && (match i with Scan _ -> false | _ -> true) then bad := ("jit-uncovered@" ^ string_of_int idx ^ ":" ^ instr_text i) :: !bad) p.bp_code;
     if !bad = [] then "ok" else Stdlib.String.concat "," (List.rev !bad)
